@@ -3,11 +3,12 @@ use crate::util::fill;
 use crate::wire::*;
 
 pub const SELF_DELIMITING: usize = 17;
-pub const TOTAL: usize = 27;
-pub const NAMES: [&str; 27] = [
+pub const TOTAL: usize = 30;
+pub const NAMES: [&str; 30] = [
     "V5x0", "V5x2", "V7x1", "V9-T", "V9-D", "V9-TD", "V9-OT+OD", "IPFIX-T", "IPFIX-D", "IPFIX-TD", "IPFIX-T'", "IPFIX-D(absent id)", "IPFIX-header-only(16 bytes)", "V9-count-0(20 bytes)", "V7x0", "V9-D+T'(data then redefinition)", "IPFIX-D+T(data then redefinition)",
     "V9-D(absent id)", "version-6", "version-0", "garbage", "V9 truncated inside a template",
     "V9-T with version 0x0109", "V5x2 with version 0x0105", "IPFIX-T with version 0x010a", "V7x1 with version 0x0107", "V9-T with version 0x0900",
+    "one byte 0x00", "one byte 0x05", "one byte 0x09",
 ];
 // indices of the packets that are not self-delimiting / erroring
 pub const V9_D_ABSENT: usize = 17;
@@ -84,6 +85,10 @@ pub fn packet(k: usize, salt: usize) -> Vec<u8> {
             b
         }
         20 => (0..9).map(|j| fill(salt + 77, j) | 0x80).collect(),
+        // a one-byte tail: no version field to filter on
+        27 => vec![0x00],
+        28 => vec![0x05],
+        29 => vec![0x09],
         22 | 23 | 24 | 25 | 26 => {
             let (base, ver) = [(3usize, 0x0109u16), (1, 0x0105), (7, 0x010a), (2, 0x0107), (3, 0x0900)][k - 22];
             let mut b = packet(base, salt);
